@@ -30,6 +30,19 @@ theorem term_facts {t : Tok} (h : t.kind = .comma ∨ t.kind = .rbrack ∨ t.kin
     t.isErr = false ∧ isPsStart t.kind = false ∧ (t.kind == .colon) = false ∧ (t.kind == .string) = false := by
   rcases h with h | h | h <;> simp [Tok.isErr, isPsStart, h]
 
+/-- `key : value` with a quoted key; the value a quoted string, an integer or a decimal; the value node carries the key's line -/
+inductive RPair : List Tok → String × ENode → Prop
+  | str (k v : String) (lk lc lv : Nat) : RPair [⟨.string, .str k, lk⟩, ⟨.colon, .none, lc⟩, ⟨.string, .str v, lv⟩] (k, .mk (.str v) lk)
+  | int (k : String) (n : Int) (lk lc lv : Nat) : RPair [⟨.string, .str k, lk⟩, ⟨.colon, .none, lc⟩, ⟨.int, .int n, lv⟩] (k, .mk (.int n) lk)
+
+/-- one or more pairs separated by commas, optionally followed by a trailing comma; the map is built from the last pair backwards
+(`dictSet`: a repeated key keeps the position of its later occurrence and the value of its earlier one) -/
+inductive RPairs : List Tok → List (String × ENode) → Prop
+  | one (ts : List Tok) (p : String × ENode) : RPair ts p → RPairs ts [p]
+  | oneComma (ts : List Tok) (p : String × ENode) (lc : Nat) : RPair ts p → RPairs (ts ++ [⟨.comma, .none, lc⟩]) [p]
+  | cons (ts : List Tok) (k : String) (v : ENode) (lc : Nat) (ts' : List Tok) (kv : List (String × ENode)) :
+      RPair ts (k, v) → RPairs ts' kv → RPairs (ts ++ ⟨.comma, .none, lc⟩ :: ts') (dictSet kv k v)
+
 mutual
   /-- `RVal ts e`: the token sequence `ts` is a rendering of the value whose parse-tree node is `e` -/
   inductive RVal : List Tok → ENode → Prop
@@ -40,6 +53,8 @@ mutual
     | nil (l l' : Nat) : RVal [⟨.lbrack, .none, l⟩, ⟨.rbrack, .none, l'⟩] (.mk (.list []) l)
     | list (l l' : Nat) (ts : List Tok) (es : List ENode) : RElems ts es →
         RVal (⟨.lbrack, .none, l⟩ :: ts ++ [⟨.rbrack, .none, l'⟩]) (.mk (.list es) l)
+    | dict (l l' : Nat) (ts : List Tok) (kv : List (String × ENode)) : RPairs ts kv →
+        RVal (⟨.lbrack, .none, l⟩ :: ts ++ [⟨.rbrack, .none, l'⟩]) (.mk (.dict kv) l)
   /-- one or more elements separated by commas, optionally followed by a trailing comma -/
   inductive RElems : List Tok → List ENode → Prop
     | one (ts : List Tok) (e : ENode) : RVal ts e → RElems ts [e]
@@ -98,6 +113,9 @@ theorem atPair_false {ts : List Tok} {e : ENode} (h : RVal ts e) (rest : List To
   | list l l' ts es he =>
     simp only [List.cons_append]
     exact atPair_lbrack _ _
+  | dict l l' ts kv he =>
+    simp only [List.cons_append]
+    exact atPair_lbrack _ _
 
 theorem RElems.head {ts : List Tok} {es : List ENode} (h : RElems ts es) :
     ∃ t r, ts = t :: r ∧ t.isErr = false ∧ (t.kind = .int ∨ t.kind = .float ∨ t.kind = .string ∨ t.kind = .id ∨ t.kind = .lbrack) := by
@@ -152,6 +170,76 @@ theorem listBody_nonclose (f : Nat) {t : Tok} (r : List Tok) (he : t.isErr = fal
 
 theorem listBody_close (f l : Nat) (r : List Tok) : listBody (f + 1) (⟨.rbrack, .none, l⟩ :: r) = .ok (.list [], r) := by
   rw [listBody]; simp [peek, Tok.isErr]
+
+/-! ### tuples -/
+
+theorem tuplePair_renders {ts : List Tok} {p : String × ENode} (h : RPair ts p) (rest : List Tok) (hr : IsTerm rest) :
+    tuplePair (ts ++ rest) = .ok (p, rest) := by
+  cases h with
+  | str k v lk lc lv => simp [tuplePair, Tok.isErr, expect, numVal]
+  | int k n lk lc lv =>
+    obtain ⟨t, r, rfl, ht⟩ := hr
+    obtain ⟨he, hps, _, _⟩ := term_facts ht
+    simp [tuplePair, Tok.isErr, expect, numVal, isNumberHere, hps]
+    simp [Tok.isErr] at he
+    simp [he]
+
+theorem RPair.shape {ts : List Tok} {p : String × ENode} (h : RPair ts p) :
+    ∃ t u r, ts = t :: u :: r ∧ t.isErr = false ∧ t.kind = .string ∧ u.kind = .colon ∧ r.length = 1 := by
+  cases h <;> exact ⟨_, _, _, rfl, by simp [Tok.isErr], rfl, rfl, rfl⟩
+
+theorem RPairs.shape {ts : List Tok} {kv : List (String × ENode)} (h : RPairs ts kv) :
+    ∃ t u r, ts = t :: u :: r ∧ t.isErr = false ∧ t.kind = .string ∧ u.kind = .colon := by
+  cases h with
+  | one ts p hp => obtain ⟨t, u, r, rfl, h1, h2, h3, _⟩ := hp.shape; exact ⟨t, u, r, rfl, h1, h2, h3⟩
+  | oneComma ts p lc hp => obtain ⟨t, u, r, rfl, h1, h2, h3, _⟩ := hp.shape; exact ⟨t, u, r ++ [_], rfl, h1, h2, h3⟩
+  | cons ts k v lc ts' kv hp _ => obtain ⟨t, u, r, rfl, h1, h2, h3, _⟩ := hp.shape; exact ⟨t, u, r ++ _, rfl, h1, h2, h3⟩
+
+/-- a rendering of pairs is recognised as the start of a tuple -/
+theorem atPair_pairs {ts : List Tok} {kv : List (String × ENode)} (h : RPairs ts kv) (rest : List Tok) : atPair (ts ++ rest) = true := by
+  obtain ⟨t, u, r, rfl, _, h2, h3⟩ := h.shape
+  simp [atPair, h2, h3]
+
+theorem RPair.len {ts : List Tok} {p : String × ENode} (h : RPair ts p) : ts.length = 3 := by cases h <;> rfl
+
+theorem tuplePairs_renders {ts : List Tok} {kv : List (String × ENode)} (h : RPairs ts kv) :
+    ∀ (rest : List Tok) (fuel : Nat), IsClose rest → ts.length < fuel → tuplePairs fuel (ts ++ rest) = .ok (kv, rest) := by
+  induction h with
+  | one ts p hp =>
+    intro rest fuel hr hf
+    cases fuel with
+    | zero => simp at hf
+    | succ f =>
+      rw [tuplePairs, tuplePair_renders hp rest hr.term]
+      obtain ⟨t, r, rfl, hk⟩ := hr
+      have he : t.isErr = false := by simp [Tok.isErr, hk]
+      simp only [peek_head he, hk]
+  | oneComma ts p lc hp =>
+    intro rest fuel hr hf
+    cases fuel with
+    | zero => simp at hf
+    | succ f =>
+      have hterm : IsTerm ((⟨.comma, .none, lc⟩ : Tok) :: rest) := ⟨_, _, rfl, Or.inl rfl⟩
+      simp only [List.append_assoc, List.cons_append, List.nil_append]
+      rw [tuplePairs, tuplePair_renders hp _ hterm]
+      obtain ⟨t, r, rfl, hk⟩ := hr
+      simp [peek, Tok.isErr, hk]
+  | cons ts k v lc ts' kv hp hps ih =>
+    intro rest fuel hr hf
+    cases fuel with
+    | zero => simp at hf
+    | succ f =>
+      have hterm : IsTerm ((⟨.comma, .none, lc⟩ : Tok) :: (ts' ++ rest)) := ⟨_, _, rfl, Or.inl rfl⟩
+      have ih' := ih rest f hr (by simp at hf; omega)
+      simp only [List.append_assoc, List.cons_append, List.nil_append]
+      rw [tuplePairs, tuplePair_renders hp _ hterm]
+      obtain ⟨t0, u0, r0, rfl, h0e, h0k, _⟩ := hps.shape
+      simp only [List.append_assoc, List.cons_append, List.nil_append] at ih' ⊢
+      have hce : (⟨.comma, .none, lc⟩ : Tok).isErr = false := by simp [Tok.isErr]
+      try simp only []
+      rw [peek_head hce]
+      simp only [List.drop_succ_cons, List.drop_zero]
+      rw [peek_head h0e, ih', h0k]
 
 mutual
   /-- **token-level round trip for values**: a rendering of a value, followed by a terminator, is read back as exactly that value -/
@@ -222,6 +310,26 @@ mutual
             have : t0.kind ≠ .rbrack := by rcases h0k with h | h | h | h | h <;> simp [h]
             rw [expression_lbrack, listBody_nonclose _ _ h0e this, ih]
             simp [Tok.isErr, expect]
+
+    | _, _, .dict l l' ts kv hkv, rest, fuel, hr, hf => by
+        cases fuel with
+        | zero => simp at hf
+        | succ f =>
+          cases f with
+          | zero => simp at hf; try omega
+          | succ f' =>
+            cases f' with
+            | zero => simp at hf
+            | succ f'' =>
+              have hclose : IsClose ((⟨.rbrack, .none, l'⟩ : Tok) :: rest) := ⟨_, _, rfl, rfl⟩
+              have ht := tuplePairs_renders hkv (⟨.rbrack, .none, l'⟩ :: rest) f'' hclose (by simp at hf; omega)
+              have hat := atPair_pairs hkv (⟨.rbrack, .none, l'⟩ :: rest)
+              obtain ⟨t0, u0, r0, rfl, h0e, h0k, _⟩ := hkv.shape
+              simp only [List.cons_append, List.nil_append, List.append_assoc] at ht hat ⊢
+              have : t0.kind ≠ .rbrack := by simp [h0k]
+              rw [expression_lbrack, listBody_nonclose _ _ h0e this, elements]
+              simp only [hat, if_true, ht]
+              simp [Tok.isErr, expect]
 
   theorem elements_renders : ∀ {ts : List Tok} {es : List ENode}, RElems ts es → ∀ (rest : List Tok) (fuel : Nat), IsClose rest → 2 * ts.length + 1 ≤ fuel →
       elements fuel (ts ++ rest) = .ok (.list es, rest)
